@@ -10,7 +10,7 @@ for sd in "$@"; do
   name=$(basename $sd)
   wt=$(mktemp -d /tmp/wt_mx_XXXX); rmdir $wt
   git -C /repo worktree add --detach $wt HEAD >/dev/null 2>&1 || { echo "$name worktree failed" >> $out; continue; }
-  git -C $wt apply $sd/patch.diff || { echo "$name PATCH-DOES-NOT-APPLY" >> $out; git -C /repo worktree remove --force $wt; continue; }
+  git -C $wt apply "$(readlink -f $sd/patch.diff)" || { echo "$name PATCH-DOES-NOT-APPLY" >> $out; git -C /repo worktree remove --force $wt; continue; }
   for i in $(seq -w 1 20); do
     res=$(SKGSTAT_REPO=$wt VERIF_SEED=${VERIF_SEED:-0} timeout 1500 ./check C$i 2>&1); rc=$?
     v=$(echo "$res" | grep -c "^VIOLATION"); nf=$(echo "$res" | grep -c "no-failing-input-found"); fb=$(echo "$res" | grep -c "^TIE-FALLBACK")
